@@ -266,7 +266,11 @@ def run_case(case, world):
                     err = outcome[1]
                     world.event(('error', idx, canon_exc(err)))
                     if expected[0] == 'ok':
-                        if is_ep_error(err):
+                        if is_ep_error(err) and canon_exc(err)[-1] == 'FOAR0002':
+                            # the implementation limit on the size of xs:integer (programs that square their
+                            # accumulator in a fold): the reference interpreter has no limit
+                            stats['integer_limit_errors'] = stats.get('integer_limit_errors', 0) + 1
+                        elif is_ep_error(err):
                             violate('MODEL_MISMATCH', what, '%s raised %r, reference interpreter gives %r' % (
                                 text, canon_exc(err), expected[1]), flags, ['engine-error'])
                         else:
